@@ -25,11 +25,18 @@ GUARD = 'XIAOYELI_SUPERLU_MT_VERIF'
 BASE_FLAGS = ['-DVH_CBMC', '-D__PTHREAD', '-DAdd_', '-D' + GUARD, '-I' + SRC, '-I' + HARN,
               '-DUSER_MALLOC(s)=malloc(s)', '-DUSER_FREE(p)=free(p)']
 NATIVE_FLAGS = ['-D__PTHREAD', '-DAdd_', '-D' + GUARD, '-I' + SRC, '-I' + HARN, '-w', '-g', '-O0']
-CBMC_SAT_FLAGS = ['--max-field-sensitivity-array-size', '4096', '--unwinding-assertions', '--pointer-overflow-check', '--signed-overflow-check',
+CBMC_SAT_FLAGS = ['--object-bits', '12', '--max-field-sensitivity-array-size', '4096', '--unwinding-assertions', '--pointer-overflow-check', '--signed-overflow-check',
                   '--undefined-shift-check', '--drop-unused-functions', '--no-malloc-may-fail']
-CBMC_SMT_FLAGS = ['--max-field-sensitivity-array-size', '4096', '--unwinding-assertions', '--drop-unused-functions', '--no-malloc-may-fail',
+CBMC_SMT_FLAGS = ['--object-bits', '12', '--max-field-sensitivity-array-size', '4096', '--unwinding-assertions', '--drop-unused-functions', '--no-malloc-may-fail',
                   '--no-standard-checks', '--slice-formula']
-NCPU = int(os.environ.get('VERIF_JOBS', '0')) or os.cpu_count() or 4
+NCPU = int(os.environ.get('VERIF_JOBS', '0')) or min(os.cpu_count() or 4, 12)   # some queries need ~4 GB: 12 in parallel fit in 62 GB
+# every function without a body gets "assert(false); assume(false)" -- except CPROVER intrinsics, nondet_* and the C library
+# (cbmc adds its own models for those when it loads the binary)
+NOBODY_RX = ('^(?!__CPROVER|nondet_|__VERIFIER|__builtin|__atomic|__assert|_IO_|malloc$|calloc$|realloc$|free$|alloca$|printf$|fprintf$|'
+             'sprintf$|snprintf$|vprintf$|vfprintf$|puts$|putchar$|putc$|fputs$|fputc$|fflush$|perror$|exit$|_exit$|abort$|fabs$|fabsf$|fabsl$|'
+             'sqrt$|sqrtf$|pow$|log$|log10$|exp$|floor$|ceil$|fmod$|fmax$|fmin$|mem|str|ato|fopen$|fclose$|fgets$|fgetc$|fread$|fwrite$|'
+             'fscanf$|scanf$|sscanf$|getc$|getchar$|ungetc$|getenv$|pthread_|sysconf$|time$|clock$|times$|gettimeofday$|getrusage$|'
+             'rand$|srand$|random$|srandom$|qsort$|is[a-z]+$|to(upper|lower)$|abs$|labs$|sleep$|usleep$|signal$|raise$).*$')
 
 
 def _wrap(cmd, mem_gb):
@@ -291,6 +298,14 @@ class Runner:
         if rc != 0:
             raise RuntimeError('goto-cc link %s: %s' % (q.name, (e or o)[-3000:]))
         os.unlink(hobj)
+        # a function without a body would silently become "returns anything, does nothing" (with --no-standard-checks
+        # cbmc does not even flag it): add the C library models first, then give every remaining body-less function
+        # the body assert(false); assume(false) so that reaching one fails the query (C library functions keep cbmc's models)
+        rc, o, e, _ = sh(['goto-instrument', '--generate-function-body', NOBODY_RX,
+                          '--generate-function-body-options', 'assert-false-assume-false', out, out + '.b'], timeout=300)
+        if rc != 0 or not os.path.exists(out + '.b'):
+            raise RuntimeError('goto-instrument generate-function-body %s: %s' % (q.name, (e or o)[-1500:]))
+        os.replace(out + '.b', out)
         ins = getattr(q, 'instrument', None)
         if ins:
             # e.g. --nondet-static-matching <regex>: start from arbitrary values of the library's own static state
